@@ -25,14 +25,18 @@ theorem applyLocalToReader_need (r : CodecRead.Reader) (loc : List (Nat × Nat))
 /-- **`Settings::recv_settings`**: the peer's ACK runs `apply_local_settings`; a SETTINGS frame is only
     remembered (the `assert!(self.remote.is_none())` holds after `poll_ready`) -/
 theorem recvSettings_cs {X : String → Prop} {c : Conn} (hi : GoAwayInv c) (hw : IwsInv c) (ack : Bool) (vals : List (Nat × Nat))
-    (hrem : ack = false → c.settings.remote = none) : CS X c (c.recvSettings ack vals).1 := by
+    (hrem : ack = false → c.settings.remote = none) (hv : ack = false → ConnFlowP.SettingsOk vals) :
+    CS X c (c.recvSettings ack vals).1 := by
   have k := (ConnCtlP.recvSettings_keep c ack vals).step hi
   refine ⟨⟨k.1, k.2, ?_, ?_⟩, ?_⟩
   all_goals
     cases ack with
     | false =>
       rw [ConnCtlP.recvSettings_nonack c vals (hrem rfl)]
-      first | exact fun p hp => ⟨p, hp, rfl⟩ | exact fun hn => hn.keep rfl (.of_eq rfl) | exact .refl
+      first
+        | exact fun p hp => ⟨p, hp, rfl⟩
+        | exact fun hn => ⟨hn.max, hn.need, hn.loc, (fun v h => by injection h with h; subst h; exact hv rfl), hn.iws⟩
+        | exact .refl
     | true =>
       cases hl : c.settings.loc with
       | waitingAck loc =>
@@ -52,8 +56,8 @@ theorem recvSettings_cs {X : String → Prop} {c : Conn} (hi : GoAwayInv c) (hw 
              have hneed : ∀ n, (ConnCtlP.applyLocalToReader c.codec.r loc).need = some n → n ≤ 16777224 := by
                rw [applyLocalToReader_need]; exact hn.need
              cases r with
-             | error e => exact ⟨hmax, hneed, hn.loc, hn.iws⟩
-             | ok u => exact ⟨hmax, hneed, (fun v m hv => by rcases hv with hv | hv <;> cases hv),
+             | error e => exact ⟨hmax, hneed, hn.loc, hn.rem, hn.iws⟩
+             | ok u => exact ⟨hmax, hneed, (fun v m hv => by rcases hv with hv | hv <;> cases hv), hn.rem,
                  (fun v hv => by rcases hv with hv | hv <;> cases hv)⟩)
       | toSend l =>
         rw [ConnCtlP.recvSettings_ack_unsolicited c vals (by intro l' h; rw [hl] at h; cases h)]
@@ -107,7 +111,7 @@ theorem lift_qs {c : Conn} (r : Streams × Except PErr Unit) (o : Op) (hp : Conn
       | (s, .ok _) => (({ c with streams := s } : Conn), (Except.ok Conn.ReceivedFrame.continue : Except PErr Conn.ReceivedFrame))
       | (s, .error e) => ({ c with streams := s }, Except.error e)).1 := by
   rcases r with ⟨s, r⟩
-  cases r <;> exact ⟨fun p hp => ⟨p, hp, rfl⟩, rfl, .of_eq rfl, .op1 o hp hu e rfl⟩
+  cases r <;> exact ⟨fun p hp => ⟨p, hp, rfl⟩, rfl, .of_eq rfl rfl, .op1 o hp hu e rfl⟩
 
 /-- `recv_frame` never touches `settings` -/
 theorem recvFrame_settings (c : Conn) (f : Option Frame.Frame) : (c.recvFrame f).1.settings = c.settings := by
@@ -138,6 +142,35 @@ theorem recvFrame_settings (c : Conn) (f : Option Frame.Frame) : (c.recvFrame f)
       repeat' split
       all_goals rfl
 
+/-- `recv_frame` answers `Settings(frame)` only for a SETTINGS frame, which it hands back as it is -/
+theorem recvFrame_settings_inv {c c1 : Conn} {f : Option Frame.Frame} {a : Bool} {v : List (Nat × Nat)}
+    (h : c.recvFrame f = (c1, .ok (.settings a v))) : f = some (.settings a v) := by
+  have h2 : (c.recvFrame f).2 = .ok (.settings a v) := by rw [h]
+  have lift : ∀ (r : Streams × Except PErr Unit),
+      (match r with
+        | (s, .ok _) => (({ c with streams := s } : Conn), (Except.ok Conn.ReceivedFrame.continue : Except PErr Conn.ReceivedFrame))
+        | (s, .error e) => ({ c with streams := s }, Except.error e)).2 = .ok (.settings a v) → False := by
+    intro r hr; rcases r with ⟨s, r⟩; cases r <;> cases hr
+  cases f with
+  | none => cases h2
+  | some f =>
+    cases f with
+    | headers sid eos dep blk => exact (lift _ h2).elim
+    | data sid payload eos padLen => exact (lift _ h2).elim
+    | reset sid code => exact (lift _ h2).elim
+    | pushPromise sid promised blk => exact (lift _ h2).elim
+    | windowUpdate sid inc => exact (lift _ h2).elim
+    | priority sid dep w e => cases h2
+    | settings ack vals => cases h2; rfl
+    | goAway last code debug =>
+      unfold Conn.recvFrame at h2
+      dsimp only at h2
+      split at h2 <;> cases h2
+    | ping ack payload =>
+      rw [ConnCtlP.recvFrame_ping_eq] at h2
+      unfold ConnCtlP.pingTail at h2
+      split at h2 <;> cases h2
+
 /-- **`DynConnection::recv_frame`** after `poll_ready` answered `Ready(Ok)`: one stream-layer operation per frame
     (PING: `wake`, then `Recv::go_away(last_processed_id)` for the ACK of the shutdown PING), each satisfying
     `ConnP'`; no panic of the connection layer -/
@@ -145,7 +178,7 @@ theorem recvFrame_qs {c : Conn} (hc : ConnOK c) (href : c.streams.recv.refused =
     (hpp : c.pingPong.pendingPong = none) (f : Option Frame.Frame) (hf : ∀ g, f = some g → WireOK g) :
     QS c (c.recvFrame f).1 := by
   cases f with
-  | none => exact ⟨fun p hp => ⟨p, hp, rfl⟩, rfl, .of_eq rfl, .op1 (.recvEof false) rfl rfl rfl rfl⟩
+  | none => exact ⟨fun p hp => ⟨p, hp, rfl⟩, rfl, .of_eq rfl rfl, .op1 (.recvEof false) rfl rfl rfl rfl⟩
   | some f =>
     have hw := hf f rfl
     cases f with
@@ -160,7 +193,7 @@ theorem recvFrame_qs {c : Conn} (hc : ConnOK c) (href : c.streams.recv.refused =
       unfold Conn.recvFrame
       dsimp only
       rcases hr : c.streams.recvGoAwayFrame last code debug with ⟨s, r⟩
-      cases r <;> exact ⟨fun p hp => ⟨p, hp, rfl⟩, rfl, .of_eq rfl, .op1 (.recvGoAwayFrame last code debug) trivial rfl
+      cases r <;> exact ⟨fun p hp => ⟨p, hp, rfl⟩, rfl, .of_eq rfl rfl, .op1 (.recvGoAwayFrame last code debug) trivial rfl
         (by show s = (c.streams.recvGoAwayFrame last code debug).1; rw [hr]) rfl⟩
     | ping ack payload =>
       rw [ConnCtlP.recvFrame_ping_eq]
@@ -170,7 +203,7 @@ theorem recvFrame_qs {c : Conn} (hc : ConnOK c) (href : c.streams.recv.refused =
       generalize hc0 : Conn.mk c.codec c.state c.error c.goAway (c.pingPong.recvPing ack payload).1 c.settings (c.streams.wake _) c.cx c.unsupported = c0
       have k0 : QS c c0 := by
         subst hc0
-        refine ⟨fun p' hp' => ?_, rfl, .of_eq rfl, .op1 (.wake _) trivial rfl rfl rfl⟩
+        refine ⟨fun p' hp' => ?_, rfl, .of_eq rfl rfl, .op1 (.wake _) trivial rfl rfl rfl⟩
         rcases r3 with r3 | r3
         · rw [show (c.pingPong.recvPing ack payload).1.pendingPing = none from r3] at hp'; cases hp'
         · exact ⟨p', by rw [← r3]; exact hp', rfl⟩
@@ -192,7 +225,8 @@ theorem recvFrame_qs {c : Conn} (hc : ConnOK c) (href : c.streams.recv.refused =
         rw [if_pos hga]
         have d := dynGoAway_cs (X := fun _ => False) (c := c0) c0.streams.recv.lastProcessedId NO_ERROR (Nat.le_refl _)
           i0.lpi_le_max (fun ga hg => i0.lpi_le_ga ga hg)
-        exact k0.trans ⟨d.ping, by rw [(dynGoAway_frame c0 _ _).2.1], .of_eq (by rw [(dynGoAway_frame c0 _ _).2.2]), d.hist.toHistW'⟩
+        exact k0.trans ⟨d.ping, by rw [(dynGoAway_frame c0 _ _).2.1],
+          .of_eq (by rw [(dynGoAway_frame c0 _ _).2.2]) (by rw [(dynGoAway_frame c0 _ _).2.2]), d.hist.toHistW'⟩
 
 /-- **`recv_frame` as a step of the connection** -/
 theorem recvFrame_cs {X : String → Prop} {c : Conn} (hc : ConnOK c) (hcn : c.goAway.closeNow = false)
